@@ -15,6 +15,9 @@ def token_action(api, begin=None):
     s = "{ vf_body(); "
     if begin is not None:
         s += "yybegin(%s); vf_did_begin(%s, yystart()); " % (begin, begin)
+    inp = "yyinput(%s)" % ("yyscanner" if api == "R" else "")
+    line = "yyget_lineno(yyscanner)" if api == "C99" else "yylineno"
+    s += "while (vf_action_input()) { int vf_c = %s; vf_did_input_b(vf_c, %s); } " % (inp, line)
     s += ("if (vf_action_push()) { yypush_buffer_state(yy_create_buffer((FILE *)(void *)&vf_fake_file[vf_action_src()], 16%s)%s); "
           "vf_action_pushed(); } return 1; }" % (last, last))
     return s
@@ -85,3 +88,42 @@ def make_job(api, eof_assign, knobs, tag, sources=SOURCES, contents=CONTENTS, op
     return dict(groups=[g], tag=tag, api=api, options=opts, knobs=kn, driver="vf_bufdriver.h", extra_tables="".join(extra),
                 prologue="#define VF_NSRC %d" % len(sources), cdefs=["VF_FAKE_FILES"] + list(cdefs), flex_args=list(flex_args), san=san,
                 driver_args=["-H", "80"])
+
+
+def run_jobs(ck, pid, jobs):
+    """Run buffer-driver jobs for check `ck` of property `pid`; violations are reported, totals returned."""
+    from .check import pmap
+    tot = dict(executions=0, tokens=0, choice_points=0, nontrivial=0, reads=0, eof_actions=0, yywraps=0, horizons=0, inputs=0, input_eofs=0)
+    calls = [0] * 13
+    for job, res in pmap(H.run_groups_job, jobs, check=ck):
+        if "worker_exception" in res:
+            ck.broken.append("worker failed on %s: %s" % (job["tag"], res["worker_exception"]))
+            continue
+        if "build_failure" in res:
+            bf = res["build_failure"]
+            if H.harness_own_error(bf):
+                ck.broken.append("harness does not compile (%s): %s" % (job["tag"], bf["stderr"][:400]))
+            else:
+                ck.violation("%s:%s-refused:%s" % (pid, bf["stage"], job["tag"]), "%s failed: %s" % (bf["stage"], bf["stderr"][-300:]),
+                             files={"s.l": bf["spec"]}, case={"stderr": bf["stderr"]})
+            continue
+        sm = res["summary"]
+        if sm is None:
+            ck.violation("%s:driver-crash:%s" % (pid, job["tag"]), "harness scanner died (rc=%s): %s" % (res["rc"], (res["hard_error"] or res["stderr"])[-300:]),
+                         files={"s.l": res.get("spec", ""), "s_tables.h": res.get("tables", "")}, case={"stderr": res["stderr"]})
+            continue
+        for k in tot:
+            tot[k] += sm.get(k, 0)
+        for i, n in enumerate(sm.get("calls", [])):
+            calls[i] += n
+        if sm.get("overflow") or sm.get("aborted") or sm.get("timed_out"):
+            ck.exhaustive = False
+        for v in res["viols"]:
+            ck.violation("%s:%s:%s" % (pid, job["tag"], v.get("what", v.get("msg", v["viol"]))),
+                         "[%s] history '%s': %s (expected %s, observed %s, condition %s)" % (
+                             job["tag"], v.get("history"), v.get("what", v.get("msg")), v.get("exp"), v.get("obs"), v.get("sc")),
+                         case={"cmd": v["cmd"], "viol": {k: v[k] for k in v if k not in ("spec", "tables", "cmd")}},
+                         files={"s.l": v["spec"], "s_tables.h": v["tables"]})
+        ck.sample({"job": job["tag"], "executions": sm["executions"], "yyinput": sm.get("inputs", 0)})
+    tot["calls"] = calls
+    return tot
